@@ -80,7 +80,10 @@ MANIFEST = dict(
          "at all. Covered by the theorems: every key in all four states (Selecting with phrase lists, special-symbol lists and "
          "symbol tables: paging, Down/Space = PhraseSelector::next, j/k = retarget, digits = Selecting::select - a chosen phrase is "
          "a valid selection) and every other entry point. PARTIAL: not yet covered by a theorem (predicate Covered; C01_target is "
-         "the statement without it): jump_to_{first,last,next,prev}_selection_point while a phrase candidate list is open; "
+         "the statement without it): jump_to_{first,last,next,prev}_selection_point while a phrase candidate list is open - and "
+         "that corner is a genuine defect, finding F41 found by the proof attempt (f41_jump_first_breaks_invariant, "
+         "C01_target_refuted: with the simple engine jump_to_first_selection_point makes the single-word selector swallow the "
+         "following non-syllable symbol; choosing a candidate records an invalid selection outside C03's CompValid); "
          "the C glue capi/src/io.rs. Those rest on the tie: per-operation correspondence of model and real Editor from its own "
          "pre-state (panic outcomes included, 0 differences), the editor-harness oracle (any panic / hang of an operation or "
          "accessor) and a C-API crash/hang campaign in forked workers with a per-call watchdog (all 256 key codes, options, 17 "
